@@ -44,6 +44,14 @@ def _core_functions(ctx) -> List[FunctionInfo]:
 # ------------------------------------------------------------------ STORE-1
 
 
+def _fresh_own_region(ctx, fn, target: ast.AST) -> bool:
+    """target is `<g>.region` where g is bound, in this function, to a freshly constructed SCFG(...)"""
+    if not (isinstance(target, ast.Attribute) and target.attr == "region" and isinstance(target.value, ast.Name)):
+        return False
+    ds = [d for d in ctx.cfg(fn).reaching_defs(target.value) if d.stmt is not None]
+    return bool(ds) and all(isinstance(d.stmt, ast.Assign) and isinstance(d.stmt.value, ast.Call) and (A.dotted(d.stmt.value.func) or "").split(".")[-1] == "SCFG" for d in ds)
+
+
 @rule("STORE-1", 6, "frozen blocks are written only through the block API: no replace()/__setattr__ of payload fields anywhere, none of edge fields outside basic_block.py")
 def store1(ctx) -> List[Ob]:
     out: List[Ob] = []
@@ -93,6 +101,8 @@ def store1(ctx) -> List[Ob]:
                         out.append(ok("STORE-1", fn.qualname, key, where, f"hierarchy pointer '{f}' written by the module that owns the hierarchy"))
                     else:
                         out.append(bad("STORE-1", fn.qualname, key, where, f"hierarchy pointer '{f}' written outside scfg.py / transformations.py / the block API"))
+                elif f in all_fields and _fresh_own_region(ctx, fn, target):
+                    out.append(ok("STORE-1", fn.qualname, key, where, f"'{f}' of the region object created by the SCFG(...) constructed in this function (not an input block)"))
                 elif f in all_fields:
                     out.append(bad("STORE-1", fn.qualname, key, where, f"payload / identity field '{f}' of a block is overwritten: original blocks must keep their payload untouched"))
                 else:
